@@ -21,6 +21,8 @@ for p in range(1, 21):
                 parts.append(f"{c} INPUT")
             elif v.startswith("caught"):
                 parts.append(f"{c} break only")
+            elif v.startswith("neutralised"):
+                parts.append(f"{c}: {v}")
             elif v == "missed":
                 parts.append(f"**{c} misses it**")
         print(f"| {sid} | {desc.get(sid, '')} | {', '.join(parts)} |")
